@@ -99,7 +99,16 @@ def r1_vocabulary(ctx):
     sets = [c for c in A.calls_in(gs) if A.call_target(c) == ('seg_data', 'set')]
     ok = len(sets) == 2 and all(len(c.args) == 2 and norm(c.args[1]).endswith('.text') for c in sets)
     yield Ob('xmlx12_simple:get_segment stores text at the id read', ok, ctx.floc(gs), '' if ok else 'set calls %s' % [norm(c) for c in sets])
-    ok = any(isinstance(n, ast.Assign) and path_of(n.targets[0]) == 'seg_id' and "get('id')" in norm(n.value) for n in ast.walk(gs))
+    # the Segment is created with the value of the node's id attribute (directly, or through a local bound to it)
+    ctor = [c for c in A.calls_in(gs) if A.call_target(c)[1] == 'Segment' and c.args]
+    ok = False
+    if len(ctor) == 1:
+        a0 = ctor[0].args[0]
+        if isinstance(a0, ast.Name):
+            defs = [n.value for n in ast.walk(gs) if isinstance(n, ast.Assign) and len(n.targets) == 1 and path_of(n.targets[0]) == a0.id]
+            a0 = defs[0] if len(defs) == 1 else a0
+        ok = isinstance(a0, ast.Call) and A.call_target(a0)[1] == 'get' and a0.args and A.const(a0.args[0]) == 'id' \
+            and path_of(a0.func.value) == gs.args.args[0].arg
     yield Ob('xmlx12_simple:get_segment segment id from the id attribute', ok, ctx.floc(gs), '' if ok else 'changed')
     # data: every element id designates its own position
     pat, flags, _ = _rec_path(ctx)
@@ -131,60 +140,39 @@ def r1_vocabulary(ctx):
                  '' if ok else 'id %r does not resolve to this node\'s position (expected a designator like %s): the value lands elsewhere on the way back' % (n.id, want))
 
 
-def _replace_chain(f, ctx=None, depth=0):
-    """ordered list of (char, entity) substitutions applied to the parameter, through the idioms the repository (or a
-    plausible refactoring) uses: a chain of .replace() calls, statements `x = x.replace(..)`, a loop over a table of pairs,
-    and delegation to a sibling escaper followed by more replacements"""
-    param = f.args.args[-1].arg
-    chain = []
-    base = None
-
-    def chain_of(e):
-        out = []
-        while isinstance(e, ast.Call) and A.call_target(e)[1] == 'replace' and len(e.args) == 2:
-            out.insert(0, (A.const(e.args[0]), A.const(e.args[1])))
-            e = e.func.value
-        return out, e
-    for st in f.body:
-        if isinstance(st, ast.For) and isinstance(st.iter, (ast.Tuple, ast.List)) and isinstance(st.target, ast.Tuple) and len(st.target.elts) == 2:
-            a, b = [path_of(x) for x in st.target.elts]
-            uses = [c for c in A.calls_in(st) if A.call_target(c)[1] == 'replace' and [path_of(x) for x in c.args] == [a, b]]
-            if uses:
-                for pair in st.iter.elts:
-                    if isinstance(pair, (ast.Tuple, ast.List)) and len(pair.elts) == 2:
-                        chain.append((A.const(pair.elts[0]), A.const(pair.elts[1])))
-                base = base or path_of(uses[0].func.value)
-        elif isinstance(st, (ast.Assign, ast.Return)) and st.value is not None:
-            sub, e = chain_of(st.value)
-            if isinstance(e, ast.Call) and A.call_target(e)[0] == 'self' and ctx is not None and depth < 2:
-                # delegation: self._escape_cont(text).replace(...)
-                g = ctx.func('xmlwriter', 'XMLWriter.' + A.call_target(e)[1], required=False)
-                if g is not None:
-                    inner, b2 = _replace_chain(g, ctx, depth + 1)
-                    chain += inner
-                    base = base or (path_of(e.args[0]) if e.args else None)
-                    chain += sub
-                    continue
-            if sub:
-                chain += sub
-                base = base or path_of(e)
-    if not chain:
-        raise AnalysisError('%s: no substitution idiom recognised' % f.name)
-    return chain, base
-
-
 def r2_escaping(ctx):
     cls = ctx.cls('xmlwriter', 'XMLWriter')
+    # what the two escape functions return, decided by constant propagation through them (str.replace applied to constant
+    # text) on probe texts: each special character becomes its entity, an ampersand exactly once (it is replaced first:
+    # the ampersands of the other entities are not escaped again), everything else is unchanged
+    from ..absint import run_function, NotClosedTest
+    ents = {'&': '&amp;', '<': '&lt;', '>': '&gt;', "'": '&apos;', '"': '&quot;'}
+    sib = {}
+    for meth in ('_escape_cont', '_escape_attr'):
+        fm = ctx.func('xmlwriter', 'XMLWriter.' + meth)
+        sib['self.' + meth] = (lambda t, _f=fm: run_function(ctx.cfg(_f), _f, [None, t], sib))
     for meth, need in (('_escape_cont', ['&', '<']), ('_escape_attr', ['&', '<', "'"])):
         f = ctx.func('xmlwriter', 'XMLWriter.' + meth)
-        chain, base = _replace_chain(f, ctx)
-        srcs = [a for a, b in chain]
-        ok = bool(srcs) and srcs[0] == '&' and base == f.args.args[1].arg
-        yield Ob('xmlwriter:XMLWriter.%s replaces & first' % meth, ok, ctx.floc(f), '' if ok else 'chain %s on %s' % (srcs, base))
-        ents = {'&': '&amp;', '<': '&lt;', '>': '&gt;', "'": '&apos;', '"': '&quot;'}
+
+        def esc(t, f=f):
+            try:
+                return run_function(ctx.cfg(f), f, [None, t], sib)
+            except (NotClosedTest, A.NotClosed) as e:
+                raise AnalysisError('XMLWriter.%s cannot be evaluated on the text %r: %s' % (f.name, t, e))
+        import html as _html
+        probe = "a&b<c>d'e&lt;f"
+        got = esc(probe)
+        # decoding the entities of the output once gives the input back: nothing is escaped twice, nothing is left raw
+        ok = isinstance(got, str) and _html.unescape(got) == probe and '<' not in got and all(
+            c_ not in got.replace('&apos;', '') for c_ in (["'"] if "'" in need else []))
+        yield Ob('xmlwriter:XMLWriter.%s replaces & first' % meth, ok, ctx.floc(f), '' if ok else '%r is written as %r' % (probe, got))
         for ch in need:
-            ok = (ch, ents[ch]) in chain
-            yield Ob('xmlwriter:XMLWriter.%s covers %r' % (meth, ch), ok, ctx.floc(f), '' if ok else '%r is not replaced by %s' % (ch, ents[ch]))
+            got = esc('x%sy' % ch)
+            ok = got == 'x%sy' % ents[ch]
+            yield Ob('xmlwriter:XMLWriter.%s covers %r' % (meth, ch), ok, ctx.floc(f), '' if ok else '%r is written as %r, not as %s' % (ch, got, ents[ch]))
+        got = esc('plain text 01-A')
+        ok = got == 'plain text 01-A'
+        yield Ob('xmlwriter:XMLWriter.%s leaves other text alone' % meth, ok, ctx.floc(f), '' if ok else 'plain text is written as %r' % (got,))
     # attribute template quote char
     for meth in ('push', 'elem'):
         f = ctx.func('xmlwriter', 'XMLWriter.' + meth)
@@ -197,6 +185,12 @@ def r2_escaping(ctx):
             yield Ob('xmlwriter:XMLWriter.%s attribute quote is the one _escape_attr covers' % meth, okq, ctx.floc(f), '' if okq else 'template %r quotes with %r' % (t, q))
             args = tm[0].args
             okv = len(args) == 2 and isinstance(args[1], ast.Call) and A.call_target(args[1]) == ('self', '_escape_attr')
+            if len(args) == 2 and isinstance(args[1], ast.Name):
+                # the escaped value is held in a local first: every binding of it on the way is the escape of the attribute value
+                lp_ = A.enclosing(tm[0], (ast.For,))
+                defs = [n.value for n in ast.walk(lp_ if lp_ is not None else f) if isinstance(n, ast.Assign) and len(n.targets) == 1
+                        and path_of(n.targets[0]) == args[1].id]
+                okv = bool(defs) and all(isinstance(d, ast.Call) and A.call_target(d) == ('self', '_escape_attr') for d in defs)
             yield Ob('xmlwriter:XMLWriter.%s attribute values pass _escape_attr' % meth, okv, ctx.floc(f), '' if okv else 'value argument %s' % norm(args[1]) if len(args) > 1 else 'template arguments changed')
         else:
             yield Ob('xmlwriter:XMLWriter.%s attribute template' % meth, False, ctx.floc(f), 'attribute template not recognised')
@@ -209,9 +203,18 @@ def r2_escaping(ctx):
     ok = len(cont) == 1 and path_of(cont[0].args[1]) == 'elem' and any(A.is_str(n) and n.value == '<' for n in ast.walk(f))
     yield Ob('xmlwriter:XMLWriter.elem closes the element it opened', ok, ctx.floc(f), '' if ok else 'closing tag changed')
     f = ctx.func('xmlwriter', 'XMLWriter.pop')
-    txt = ast.unparse(f)
-    ok = (('self.stack[-1]' in txt and 'del self.stack[-1]' in txt) or 'self.stack.pop()' in txt) and '</{elem}>' in txt
-    require_idiom(ok, 'c08.py:202')
+    # decided by constant propagation through pop on the stack (a, b): the closing tag written is </b>, (a) stays open
+    from ..absint import traces
+    try:
+        res = traces(ctx.cfg(f), {'self.stack': ('a', 'b'), 'self.indent': ' '},
+                     lambda c: 'write' if A.call_target(c) in (('self', '_write'), ('self.out', 'write')) else None)
+    except NotClosedTest as e:
+        raise AnalysisError('XMLWriter.pop cannot be decided: %s' % e)
+    outs = set()
+    for tr, env_items in res:
+        written = ''.join(a_[1][0] for a_ in tr if a_[0] == 'write' and a_[1] and isinstance(a_[1][0], str))
+        outs.add((written.strip(), dict(env_items).get('self.stack')))
+    ok = outs == {('</b>', ('a',))}
     yield Ob('xmlwriter:XMLWriter.pop closes the innermost open element', ok, ctx.floc(f), '' if ok else 'pop changed')
     f = ctx.func('xmlwriter', 'XMLWriter.push')
     ok = any(A.call_target(c) == ('self.stack', 'append') and path_of(c.args[0]) == 'elem' for c in A.calls_in(f))
@@ -325,8 +328,23 @@ def r4_empty_agreement(ctx):
     ok = len(sets) == 2 and not [b_ for b_ in bad if "''" in b_ or "'v'" in b_]
     yield Ob('xmlx12_simple:get_segment stores only non-empty text', ok, ctx.floc(gs), '' if ok else 'conditions: %s' % (bad or '%d stores' % len(sets)))
     conv = ctx.func('xmlx12_simple', 'convert')
-    ok = any(isinstance(n, ast.For) and 'doc.iter()' in norm(n.iter) for n in ast.walk(conv)) and \
-        any(A.call_target(c) == ('wr', 'Write') and norm(c.args[0]) == 'get_segment(node)' for c in A.calls_in(conv))
+    # one loop over the document's nodes in document order - all of them with a test for the <seg> tag, or iter('seg') -
+    # in which every such node is converted and written
+    ok = False
+    for lp in [n for n in ast.walk(conv) if isinstance(n, ast.For) and isinstance(n.target, ast.Name)]:
+        it = lp.iter
+        if not (isinstance(it, ast.Call) and A.call_target(it)[1] == 'iter' and path_of(it.func.value) == 'doc'):
+            continue
+        var = lp.target.id
+        writes = [c for c in A.calls_in(lp) if A.call_target(c) == ('wr', 'Write') and c.args and norm(c.args[0]) == 'get_segment(%s)' % var]
+        if len(writes) != 1:
+            continue
+        st = A.enclosing(writes[0], (ast.stmt,))
+        conds = A.path_condition(st, conv)
+        if not it.args:
+            ok = len(conds) == 1 and conds[0][1] is True and norm(conds[0][0]) in ("%s.tag == 'seg'" % var, "'seg' == %s.tag" % var)
+        else:
+            ok = A.const(it.args[0]) == 'seg' and not conds
     yield Ob('xmlx12_simple:convert writes every <seg> in document order', ok, ctx.floc(conv), '' if ok else 'conversion loop changed')
     wr = [c for c in A.calls_in(conv) if A.call_target(c)[1] == 'X12Writer']
     ok = len(wr) == 1 and path_of(wr[0].args[0]) == 'fd_out'
